@@ -1,6 +1,7 @@
 pub mod actors;
 pub mod cards;
 pub mod deals;
+pub mod iterproto;
 pub mod mrank;
 pub mod notation;
 pub mod par;
